@@ -36,16 +36,32 @@ namespace Zvbi.Props.C06Join
 open Zvbi.Mux Zvbi.Mux.EnParse
 open Zvbi.Demux (SrcCfg St FrameOut pesFeeds pesFeed frames ofLine AscFrom lastLineOf firstLine Sep SepFrom FrameLinesOK outOf Holds)
 
+/-! a history used by the non-vacuity examples -/
+def exLine (id line fill : Nat) : Sliced := ⟨id, line, List.replicate 56 fill⟩
+/-- five frames: Teletext + VPS + WSS; two Teletext lines in both fields; one line; Teletext + Caption; one line after a data_identifier change -/
+def exOps : List Op :=
+  [.frame [exLine 3 7 0x15, exLine 4 16 0x31, exLine 0x400 23 0xF7] 0xFFFFFFFF 5,
+   .frame [exLine 3 7 0x80, exLine 3 320 0x01] 0xFFFFFFFF (2 ^ 33 + 6),
+   .frame [exLine 3 9 0x55] 0xFFFFFFFF 7, .frame [exLine 3 8 0, exLine 0x18 21 0x2A] 0xFFFFFFFF 8, .dataId 0x99,
+   .frame [exLine 3 7 0x11] 0xFFFFFFFF 9]
+
+
 /-- **output bytes < 256.** PES mode, every history: every value handed to the callback is a byte. -/
 theorem mux_output_bytes (m : Mux) (hp : m.cfg.pid = 0) (ops : List Op) (hops : ∀ op ∈ ops, Op.OK op) :
     ∀ b ∈ (run m ops).2.1, b < 256 :=
   run_bytes_lt ops hops m hp
+
+example : (run newPes exOps).2.1.length = 920 ∧ ∀ b ∈ (run newPes exOps).2.1, b < 256 :=
+  ⟨by decide +kernel, mux_output_bytes newPes rfl exOps (by decide +kernel)⟩
 
 /-- **accepted frames ascend.** Every history, any mode: the lines of an accepted frame, when all of
 them have a defined line number, are strictly ascending in line number (all ≥ 1) and at most 39. -/
 theorem mux_frames_ascend (m : Mux) (ops : List Op) (hops : ∀ op ∈ ops, Op.OK op) :
     ∀ s ∈ (run m ops).2.2, (∀ l ∈ s.lines, l.line ≠ 0) → AscFrom 0 s.lines ∧ s.lines.length ≤ 39 :=
   run_asc ops hops m
+
+example : ((run newPes exOps).2.2.map fun s => s.lines.map (·.line)) = [[7, 16, 23], [7, 320], [9], [8, 21], [7]] := by
+  decide +kernel
 
 /-- **mux_demux_roundtrip through the library's demultiplexer (PES path).**  For every multiplexer
 in a reachable configuration (PES mode), every history `ops` of frames (accepted or rejected;
@@ -103,14 +119,6 @@ theorem mux_demux_roundtrip_lib (cfg : SrcCfg) (m : Mux) (hc : CfgOK m.cfg) (hp 
     exact hl
 
 /-! non-vacuity: a history that meets every hypothesis, and the theorem applied to it -/
-
-def exLine (id line fill : Nat) : Sliced := ⟨id, line, List.replicate 56 fill⟩
-/-- five frames: Teletext + VPS + WSS; two Teletext lines in both fields; one line; Teletext + Caption; one line after a data_identifier change -/
-def exOps : List Op :=
-  [.frame [exLine 3 7 0x15, exLine 4 16 0x31, exLine 0x400 23 0xF7] 0xFFFFFFFF 5,
-   .frame [exLine 3 7 0x80, exLine 3 320 0x01] 0xFFFFFFFF (2 ^ 33 + 6),
-   .frame [exLine 3 9 0x55] 0xFFFFFFFF 7, .frame [exLine 3 8 0, exLine 0x18 21 0x2A] 0xFFFFFFFF 8, .dataId 0x99,
-   .frame [exLine 3 7 0x11] 0xFFFFFFFF 9]
 
 example : ∀ op ∈ exOps, Op.OK op := by decide +kernel
 example : Separable (run newPes exOps).2.2 := by decide +kernel
